@@ -19,7 +19,22 @@ Recognised fragment (everything else that mentions the configuration aborts):
   OmegaConf.save(config=self.config, f=...)            -> AWrite file ctor
   OmegaConf.save(config=<masked copy>, f=...)          -> AWriteMasked file ctor
   X.experiment.config.update({... self.config ...})    -> AWrite FWandbRun
-  self.trainer.fit(self.model, ...)                    -> [If <enable_checkpointing> ckpt]; ACall 0
+  N = ModelCheckpoint(save_top_k=<cfg>, save_last=<cfg>); L = [N] / [] ; L.Trainer(callbacks=L,
+      enable_checkpointing=<c>)                        -> checkpoint guard  <c> and (not SaveTopKZero or SaveLast)
+                                                          (Lightning: a top-k file unless save_top_k == 0, last.ckpt
+                                                          iff save_last; the callback and enable_checkpointing must
+                                                          be guarded by the same condition)
+  self.trainer.fit(self.model, ...)                    -> [If <checkpoint guard> ckpt]; ACall 0
+  XDataset(np_chunks=self.np_chunks, np_chunks_path=self.{train,val}_np_chunks_path,
+           use_existing_chunks=self.use_existing_chunks)
+                                                       -> If <self.np_chunks> (AMkChunks RmTrain / RmVal)
+  subprocess.Popen([... "sleap_nn.training.get_bin_files" ... self.litdata_chunks_path ...])
+                                                       -> AMkChunks RmLitTrain; AMkChunks RmLitVal
+  XStreamingDataset(input_dir=self.{train,val}_litdata_chunks_path)
+                                                       -> AMkChunks RmLitTrain / RmLitVal   (chunks are read)
+  if A: X elif B: X ... else: raise   (A, B data-dependent, X the same effect in every branch)
+                                                       -> (if A: pass elif B: pass ... else: raise); X
+  try: X except E: ...; raise    (no finally, every handler re-raises)   -> X
   wandb.login(key=<the key>)                           -> ACall 1   (the only call that may receive the key)
   <cfg>.trainer_config.wandb.wandb_mode == "offline"   -> CFlag WandbOffline
   if total_cache_memory > available_memory: <re-definitions of self.data_pipeline_fw, chunk paths>
@@ -49,6 +64,11 @@ WANDB_MODE_PATH = ("trainer_config", "wandb", "wandb_mode")
 RUN_ID_PATH = ("trainer_config", "wandb", "run_id")
 RUN_ID_NO = 100          # EffectIR.run_id_path
 CALL_FIT, CALL_LOGIN = 0, 1
+CKPT_TOPK_PATH = ("trainer_config", "model_ckpt", "save_top_k")
+CKPT_LAST_PATH = ("trainer_config", "model_ckpt", "save_last")
+TRAINER_CTORS = ("L.Trainer", "lightning.Trainer", "Trainer", "pl.Trainer")
+NP_CHUNK_ATTR = {"train_np_chunks_path": "RmTrain", "val_np_chunks_path": "RmVal"}
+LIT_CHUNK_ATTR = {"train_litdata_chunks_path": "RmLitTrain", "val_litdata_chunks_path": "RmLitVal"}
 FW_FLAG = {"torch_dataset": "FwTorch", "torch_dataset_np_chunks": "FwNpChunks", "litdata": "FwLitdata"}
 
 # calls that may receive the whole live configuration without persisting it
@@ -241,6 +261,11 @@ class Translator:
         self.fw_override = None               # (guard cond, new framework value) after the memory fallback
         self.n_fit = 0
         self.ctor_param = None
+        self.ckpt_cb = None                   # the ModelCheckpoint(...) construction: {"line", "stack", "writes", "name"}
+        self.n_trainer = 0
+        self.raise_sites: list[dict] = []     # explicit `raise` statements with their path conditions
+        self.in_handler = 0
+        self.mk_sites: list[str] = []
 
     # ---- lightning module ------------------------------------------------
     def analyse_lightning_module(self):
@@ -542,6 +567,20 @@ class Translator:
                 for x in ast.walk(c):
                     handled_inner.add(id(x))
                 continue
+            if f is not None and f.split(".")[-1] == "ModelCheckpoint":
+                self.model_checkpoint(c, scope)
+                continue
+            if f in TRAINER_CTORS:
+                self.trainer_ctor(c, scope)
+                continue
+            mk = self.chunk_effects(c, f, scope)
+            if mk is not None:
+                effs.append(mk)
+                continue
+            # a tracked callbacks list may only grow
+            if isinstance(c.func, ast.Attribute) and isinstance(c.func.value, ast.Name) \
+                    and c.func.value.id in scope.get("listdefs", {}) and c.func.attr != "append":
+                raise Unsupported(c, f"list `{c.func.value.id}` (callbacks) is modified by .{c.func.attr}()")
             # any other call: does it receive the key-bearing configuration?
             args = list(c.args) + [k.value for k in c.keywords]
             exp = [e for a in args for e in self.exposures(a, scope)]
@@ -571,6 +610,150 @@ class Translator:
             raise Unsupported(c, f"the key-bearing live configuration is passed to an unrecognised call "
                                  f"`{f or ast.dump(c.func)[:60]}`")
         return effs
+
+    # ---- Lightning's ModelCheckpoint / Trainer -----------------------------------------
+    @staticmethod
+    def _c_and(a, b):
+        if a == ("CFalse",) or b == ("CFalse",):
+            return ("CFalse",)
+        if a == ("CTrue",):
+            return b
+        if b == ("CTrue",):
+            return a
+        return ("and", a, b)
+
+    @staticmethod
+    def _c_or(a, b):
+        if a == ("CTrue",) or b == ("CTrue",):
+            return ("CTrue",)
+        if a == ("CFalse",):
+            return b
+        if b == ("CFalse",):
+            return a
+        return ("or", a, b)
+
+    def model_checkpoint(self, c: ast.Call, scope):
+        """ModelCheckpoint(save_top_k=..., save_last=...): under which condition does it write a file during fit?
+        Lightning's contract (model_checkpoint.py: `_save_topk_checkpoint` returns at once when save_top_k == 0,
+        `_save_last_checkpoint` when not save_last): a top-k file iff save_top_k != 0, last.ckpt iff save_last."""
+        if self.ckpt_cb is not None:
+            raise Unsupported(c, "more than one ModelCheckpoint(...) construction")
+        if c.args:
+            raise Unsupported(c, "ModelCheckpoint with positional arguments")
+        kw = {k.arg: k.value for k in c.keywords}
+        if None in kw:
+            raise Unsupported(c, "ModelCheckpoint(**kwargs)")
+
+        def opt(name, path, default, from_const, from_cfg):
+            v = kw.get(name)
+            if v is None:
+                return from_const(default)
+            if isinstance(v, ast.Constant):
+                return from_const(v.value)
+            if isinstance(v, ast.UnaryOp) and isinstance(v.op, ast.USub) and isinstance(v.operand, ast.Constant):
+                return from_const(-v.operand.value)
+            if self.flag_source(v, scope) == path:
+                return from_cfg
+            raise Unsupported(v, f"ModelCheckpoint({name}=...) is neither a constant nor the configured "
+                                 f"{'.'.join(path)}")
+        b = lambda x: ("CTrue",) if x else ("CFalse",)
+        topk = opt("save_top_k", CKPT_TOPK_PATH, 1, lambda x: b(x != 0), ("not", ("flag", "SaveTopKZero")))
+        last = opt("save_last", CKPT_LAST_PATH, None, lambda x: b(bool(x)), ("flag", "SaveLast"))
+        for name in ("every_n_train_steps", "every_n_epochs", "train_time_interval", "save_on_train_epoch_end"):
+            if name in kw:
+                raise Unsupported(kw[name], f"ModelCheckpoint({name}=...): the moments at which it saves are changed")
+        self.ckpt_cb = {"line": c.lineno, "stack": list(self.cond_stack), "writes": self._c_or(topk, last),
+                        "name": None}
+        self.notes.append(f"line {c.lineno}: ModelCheckpoint writes a file during fit iff "
+                          f"{pp_cond(self.ckpt_cb['writes'])}")
+
+    def trainer_ctor(self, c: ast.Call, scope):
+        self.n_trainer += 1
+        if self.n_trainer > 1:
+            raise Unsupported(c, "more than one Trainer(...) construction")
+        if self.n_fit:
+            raise Unsupported(c, "Trainer(...) constructed after fit")
+        kw = {k.arg: k.value for k in c.keywords}
+        if c.args or None in kw:
+            raise Unsupported(c, "Trainer(...) with positional / ** arguments")
+        en = self.cond(kw.get("enable_checkpointing", ast.Constant(value=True)), scope)
+        cbs = kw.get("callbacks")
+        has_cb = ("CFalse",)
+        if self.ckpt_cb is not None:
+            cb = self.ckpt_cb
+            if cb["name"] is None or not isinstance(cbs, ast.Name):
+                raise Unsupported(c, "the ModelCheckpoint callback does not reach Trainer(callbacks=<local list>)")
+            entries = scope.get("listdefs", {}).get(cbs.id, [])
+            if len(entries) != len(scope["defs"].get(cbs.id, [])) or not entries:
+                raise Unsupported(c, f"`{cbs.id}` is bound to something other than list displays")
+            s1 = cb["stack"]
+            other = (s1[:-1] + [("not", s1[-1])]) if s1 else None
+            n_with = 0
+            for val, stack in entries:
+                names = [e.id if isinstance(e, ast.Name) else None for e in val.elts]
+                if names == [cb["name"]] and stack == s1:
+                    n_with += 1
+                elif not val.elts and other is not None and stack == other:
+                    pass
+                else:
+                    raise Unsupported(val, f"`{cbs.id}` = {ast.unparse(val)}: not `[<the ModelCheckpoint>]` under its "
+                                           "own condition / `[]` in the opposite branch")
+            if n_with != 1:
+                raise Unsupported(c, "the ModelCheckpoint callback is not put into the callbacks list exactly once")
+            has_cb = ("CTrue",)
+            for g in reversed(s1):
+                has_cb = self._c_and(g, has_cb)
+        elif cbs is not None and "ModelCheckpoint" in ast.dump(cbs):
+            raise Unsupported(c, "ModelCheckpoint constructed inside Trainer(callbacks=...)")
+        if has_cb != en:
+            # enable_checkpointing without the callback: Lightning adds its default ModelCheckpoint (another
+            # directory, other options); the callback without enable_checkpointing: MisconfigurationException
+            raise Unsupported(c, f"enable_checkpointing ({pp_cond(en)}) and the ModelCheckpoint callback "
+                                 f"({pp_cond(has_cb)}) are not guarded by the same condition")
+        writes = self.ckpt_cb["writes"] if self.ckpt_cb is not None else ("CFalse",)
+        self.ckpt_guard = self._c_and(en, writes)
+        self.notes.append(f"line {c.lineno}: checkpoints are written during fit iff {pp_cond(self.ckpt_guard)}")
+
+    # ---- chunk files: created / read ----------------------------------------------------
+    def np_chunks_cond(self, node):
+        """`self.np_chunks`, defined in __init__ as  True if "np_chunks" in self.data_pipeline_fw else False"""
+        defs = self.attr_defs.get("np_chunks", [])
+        want = 'True if "np_chunks" in self.data_pipeline_fw else False'
+        if len(defs) != 1 or ast.dump(defs[0]) != ast.dump(ast.parse(want, mode="eval").body):
+            raise Unsupported(node, "self.np_chunks is not defined as `" + want + "`")
+        return self.fw_is("torch_dataset_np_chunks", True)
+
+    def chunk_effects(self, c: ast.Call, f, scope):
+        kw = {k.arg: k.value for k in c.keywords}
+        self_attr = lambda n: n.attr if (isinstance(n, ast.Attribute) and isinstance(n.value, ast.Name)
+                                         and n.value.id == "self") else None
+        if "np_chunks_path" in kw:
+            t = NP_CHUNK_ATTR.get(self_attr(kw["np_chunks_path"]))
+            if t is None or self_attr(kw.get("np_chunks")) != "np_chunks" \
+                    or self.flag_source(kw.get("use_existing_chunks"), scope) != ("data_config", "use_existing_chunks"):
+                raise Unsupported(c, "a dataset is constructed with np_chunks_path / np_chunks / use_existing_chunks "
+                                     "other than the trainer's attributes")
+            self.mk_sites.append(f"line {c.lineno}: {f} -> {t}")
+            return mk_if(self.np_chunks_cond(c), ("do", f"AMkChunks {t}", f"{f} writes / reads npz chunks (line {c.lineno})"),
+                         ("skip",))
+        if "input_dir" in kw:
+            t = LIT_CHUNK_ATTR.get(self_attr(kw["input_dir"]))
+            if t is None:
+                if "chunks_path" in ast.dump(kw["input_dir"]):
+                    raise Unsupported(c, "a streaming dataset reads an unrecognised chunk directory")
+                return None
+            self.mk_sites.append(f"line {c.lineno}: {f} -> {t}")
+            return ("do", f"AMkChunks {t}", f"{f} reads litdata chunks (line {c.lineno})")
+        if any(isinstance(n, ast.Constant) and isinstance(n.value, str) and "get_bin_files" in n.value
+               for a in c.args for n in ast.walk(a)):
+            if f not in ("subprocess.Popen", "subprocess.run", "subprocess.check_call", "subprocess.check_output"):
+                raise Unsupported(c, "get_bin_files is started by an unrecognised call")
+            if "attr='litdata_chunks_path'" not in ast.dump(c):
+                raise Unsupported(c, "get_bin_files does not write into self.litdata_chunks_path")
+            self.mk_sites.append(f"line {c.lineno}: get_bin_files subprocess -> RmLitTrain, RmLitVal")
+            return seq([("do", f"AMkChunks {t}", f"get_bin_files subprocess (line {c.lineno})")
+                        for t in ("RmLitTrain", "RmLitVal")])
+        return None
 
     def save(self, c: ast.Call, scope):
         kw = {k.arg: k.value for k in c.keywords}
@@ -629,6 +812,8 @@ class Translator:
             raise Unsupported(c, "fit before the lightning module was constructed from self.config")
         if self.ckpt_guard is None:
             raise Unsupported(c, "fit before `self.trainer = L.Trainer(..., enable_checkpointing=...)`")
+        if self.n_trainer != 1:
+            raise Unsupported(c, "fit without exactly one Trainer(...) construction before it")
         self.n_fit += 1
         if self.n_fit > 1:
             raise Unsupported(c, "more than one call of self.trainer.fit")
@@ -731,6 +916,9 @@ class Translator:
         if isinstance(st, ast.Raise):
             if st.exc is not None and self.call_effects(st.exc, scope):
                 raise Unsupported(st, "raise with an effectful expression")
+            if not self.in_handler:
+                self.raise_sites.append({"line": st.lineno, "guard": [pp_cond(c) for c in self.cond_stack],
+                                         "opaque": sorted({n for c in self.cond_stack for n in self._opaques(c)})})
             return ("do", "ARaise", f"line {st.lineno}")
         if isinstance(st, ast.Return):
             effs = self.call_effects(st.value, scope) if st.value is not None else []
@@ -763,6 +951,7 @@ class Translator:
         targets = st.targets if isinstance(st, ast.Assign) else [st.target]
         effs = []
         flat = []
+        ckpt_name = None
         for t in targets:
             flat.extend(t.elts if isinstance(t, (ast.Tuple, ast.List)) else [t])
         for t in flat:
@@ -823,6 +1012,10 @@ class Translator:
                     scope["defs"].setdefault(t.id, []).append(value)
                     if isinstance(value, ast.Call) and dotted(value.func) == "get_dist_rank":
                         scope["rank"].add(t.id)
+                    if isinstance(value, ast.List):
+                        scope.setdefault("listdefs", {}).setdefault(t.id, []).append((value, list(self.cond_stack)))
+                    if isinstance(value, ast.Call) and (dotted(value.func) or "").split(".")[-1] == "ModelCheckpoint":
+                        ckpt_name = t.id
                 continue
             # (e) attributes of self
             if isinstance(t, ast.Attribute) and isinstance(t.value, ast.Name) and t.value.id == "self":
@@ -848,6 +1041,8 @@ class Translator:
                 raise Unsupported(st, "the key-bearing configuration is stored into an unrecognised object")
         if value is not None:
             effs = self.call_effects(value, scope) + effs
+        if ckpt_name is not None and self.ckpt_cb is not None and self.ckpt_cb["name"] is None:
+            self.ckpt_cb["name"] = ckpt_name
         return seq(effs)
 
     def if_(self, st: ast.If, scope):
@@ -887,6 +1082,16 @@ class Translator:
             return False
         defs = scope["defs"].get("available_memory", [])
         return bool(defs) and all(d is not None and "virtual_memory" in ast.dump(d) for d in defs)
+
+    @staticmethod
+    def _opaques(c) -> list:
+        if c[0] == "opaque":
+            return [c[1]]
+        if c[0] == "not":
+            return Translator._opaques(c[1])
+        if c[0] in ("and", "or"):
+            return Translator._opaques(c[1]) + Translator._opaques(c[2])
+        return []
 
     @staticmethod
     def _cond_named(c) -> bool:
@@ -981,7 +1186,11 @@ class Translator:
         ck = False
         swallow_other = False
         for h in st.handlers:
-            hb = self.block(h.body, scope)
+            self.in_handler += 1
+            try:
+                hb = self.block(h.body, scope)
+            finally:
+                self.in_handler -= 1
             reraises = bool(h.body) and isinstance(h.body[-1], ast.Raise)
             if has_effect(self._strip_raise(hb)):
                 raise Unsupported(h, "exception handler with effects on the configuration")
@@ -994,6 +1203,10 @@ class Translator:
             raise Unsupported(st, "a handler swallows exceptions other than KeyboardInterrupt around effects")
         if not has_effect(body) and not has_effect(fin):
             return ("skip",)
+        if not ck and not swallow_other and not has_effect(fin):
+            # no finally, every handler re-raises: the statement behaves like its body (an exception inside ends
+            # the process, as anywhere outside a try with a `finally` / a swallowing handler)
+            return body
         return ("try", body, ck, fin)
 
     def _strip_raise(self, ir):
@@ -1021,29 +1234,80 @@ def _clean(ir):
     return ir
 
 
+def _no_comment(ir):
+    k = ir[0]
+    if k == "do":
+        return ("do", ir[1])
+    if k == "seq":
+        return ("seq", [_no_comment(x) for x in ir[1]])
+    if k == "if":
+        return ("if", ir[1], _no_comment(ir[2]), _no_comment(ir[3]))
+    if k == "loop":
+        return ("loop", ir[1], _no_comment(ir[2]))
+    if k == "try":
+        return ("try", _no_comment(ir[1]), ir[2], _no_comment(ir[3]))
+    return ir
+
+
+def _observable(ir) -> bool:
+    """contains an atom other than a declared mutation / an explicit rejection"""
+    k = ir[0]
+    if k == "do":
+        return not (ir[1].startswith("ASet") and ir[1].endswith("true")) and ir[1] != "ARaise"
+    if k == "seq":
+        return any(_observable(x) for x in ir[1])
+    if k == "if":
+        return _observable(ir[2]) or _observable(ir[3])
+    if k == "loop":
+        return _observable(ir[2])
+    if k == "try":
+        return True
+    return False
+
+
+def _hoist(ir):
+    """if A: X elif B: X ... else: raise  ==  (if A: pass elif B: pass ... else: raise); X
+    for data-dependent (opaque) A, B and an observable effect X that is THE SAME in every non-raising
+    branch (the four model-type branches of the data-loader methods each construct a train and a val
+    dataset).  Exact: the conditions have no effects and are evaluated before X either way."""
+    k = ir[0]
+    if k == "seq":
+        return seq([_hoist(x) for x in ir[1]])
+    if k == "loop":
+        return ("loop", ir[1], _hoist(ir[2]))
+    if k == "try":
+        return ("try", _hoist(ir[1]), ir[2], _hoist(ir[3]))
+    if k != "if":
+        return ir
+    if Translator._cond_named(ir[1]):
+        return mk_if(ir[1], _hoist(ir[2]), _hoist(ir[3]))
+
+    def leaves(x):
+        if x[0] == "if" and not Translator._cond_named(x[1]):
+            return leaves(x[2]) + leaves(x[3])
+        return [x]
+
+    def is_raise(x):
+        return x[0] == "do" and x[1] == "ARaise"
+    ls = leaves(ir)
+    body = [x for x in ls if not is_raise(x)]
+    if body and _observable(body[0]) and all(_no_comment(x) == _no_comment(body[0]) for x in body):
+        def chain(x):
+            if x[0] == "if" and not Translator._cond_named(x[1]):
+                return mk_if(x[1], chain(x[2]), chain(x[3]))
+            return x if is_raise(x) else ("skip",)
+        return seq([chain(ir), _hoist(body[0])])
+    return mk_if(ir[1], _hoist(ir[2]), _hoist(ir[3]))
+
+
 def generate(repo: Path) -> tuple[str, dict]:
     """Returns (coq source text, info dict).  Raises Unsupported (fail-closed)."""
     tr = Translator(repo)
-    # enable_checkpointing is read off the L.Trainer(...) call before translating train()
-    src = tr.src_trainer.read_text()
-    tree = ast.parse(src)
-    guard_node = None
-    for n in ast.walk(tree):
-        if isinstance(n, ast.Call) and dotted(n.func) in ("L.Trainer", "lightning.Trainer", "Trainer"):
-            if guard_node is not None:
-                raise Unsupported(n, "more than one Trainer(...) construction")
-            kw = {k.arg: k.value for k in n.keywords}
-            guard_node = kw.get("enable_checkpointing", ast.Constant(value=True))
-            tr._trainer_call_line = n.lineno
-    if guard_node is None:
-        raise Unsupported(None, "no L.Trainer(...) construction found")
-    # the guard is translated in a scope where `self.config...` paths resolve
-    tr.methods = {}
-    tr.attr_alias = {}
-    tr.ckpt_guard = tr.cond(guard_node, {"alias": {}, "defs": {}, "copies": {}, "rank": set(), "ctor": False,
-                                         "stack": ("train",), "fn": None})
-    n_guard_opaque = tr.n_opaque
-    ir = _clean(tr.translate())
+    # the checkpoint guard is read off `ModelCheckpoint(...)` / `L.Trainer(callbacks=..., enable_checkpointing=...)`
+    # while train() is translated (Translator.model_checkpoint / trainer_ctor)
+    ir = _hoist(_clean(tr.translate()))
+    if tr.n_trainer != 1 or tr.n_fit != 1:
+        raise Unsupported(None, "train() does not construct exactly one Trainer and call fit exactly once")
     sha = {p.name: hashlib.sha256(p.read_bytes()).hexdigest()[:16]
            for p in (tr.src_trainer, tr.src_lm, tr.repo / "sleap_nn/config/trainer_config.py")}
     lines = ["(* GENERATED on every run by translator/c19_effects2coq.py — do not edit.",
@@ -1062,7 +1326,11 @@ def generate(repo: Path) -> tuple[str, dict]:
     lines.append("*)")
     lines += ["From Coq Require Import List.", "Import ListNotations.", "From SV Require Import C19.EffectIR.", "",
               "Definition generated : eff :=", pp(ir, 2) + ".", ""]
-    info = {"paths": [".".join(p) for p in tr.paths], "path_notes": tr.path_notes, "opaque": tr.opaque_src,
+    for r in tr.raise_sites:
+        r["opaque_src"] = [tr.opaque_src.get(n, "?") for n in r["opaque"]]
+    info = {"raise_sites": tr.raise_sites, "mk_sites": tr.mk_sites,
+            "ckpt_guard": pp_cond(tr.ckpt_guard) if tr.ckpt_guard is not None else None,
+            "paths": [".".join(p) for p in tr.paths], "path_notes": tr.path_notes, "opaque": tr.opaque_src,
             "notes": tr.notes, "assumptions": tr.assumptions, "sha": sha, "n_loops": tr.n_loop,
             "undeclared": [".".join(p) for i, p in enumerate(tr.paths)
                            if tr.path_notes.get(i, "").startswith("`")]}
@@ -1097,6 +1365,13 @@ def self_test(repo: Path) -> dict:
         ("run_id declaration toggled", TC,
          lambda s: s.replace("    run_id: Optional[str] = None\n", "") if "    run_id: Optional[str] = None\n" in s
          else s.replace("    group: Optional[str] = None\n", "    group: Optional[str] = None\n    run_id: Optional[str] = None\n", 1)),
+        ("ModelCheckpoint never keeps a top-k model", MT,
+         lambda s: s.replace("save_top_k=self.config.trainer_config.model_ckpt.save_top_k", "save_top_k=0")),
+        ("ModelCheckpoint callback dropped from the list", MT,
+         lambda s: s.replace("callbacks = [checkpoint_callback]", "callbacks = []")),
+        ("chunk clean-up ignores the memory fallback", MT, lambda s: _replace_last(
+            s, 'self.data_pipeline_fw == "torch_dataset_np_chunks"\n                and self.config.data_config.delete',
+            'self.config.data_config.data_pipeline_fw == "torch_dataset_np_chunks"\n                and self.config.data_config.delete')),
         ("final save dropped", MT, lambda s: _replace_last(
             s, 'OmegaConf.save(\n                config=self.config, f=f"{self.dir_path}/training_config.yaml"\n            )', "pass")),
     ]
